@@ -43,6 +43,7 @@ func c07Profile(variant string, faults bool) func(c *sim.RunCtx) {
 		}
 		var acks []ack
 		var lt *lifetime
+		var quiescent *crashPoint // media at the first quiescence, before the rotation probe
 		lt = runLifetime(c, pp, m, &lifetimeOpts{proc: 1, model: model, snapshots: false, drain: true, faults: faults, noEarly: !faults, deadlockCls: "stalled",
 			script: func(l *lifetime) {
 				w := l.w
@@ -77,6 +78,7 @@ func c07Profile(variant string, faults bool) func(c *sim.RunCtx) {
 			afterDrain: func(l *lifetime) {
 				w := l.w
 				e := w.e
+				quiescent = l.snap("first-quiescence")
 				if shutdown {
 					if !e.routineReturned {
 						c.Fail("shutdown-stalled", "the system is quiescent after a shutdown request but the syncer routine has not returned: %v", w.s.Blocked())
@@ -240,9 +242,20 @@ func c07Profile(variant string, faults bool) func(c *sim.RunCtx) {
 		if e.shutdownSeq > 0 {
 			acked = ackedUploads(model, e.shutdownSeq)
 		}
-		if len(acked) > 0 {
-			cm := crashMedia(c, cfg, lt.final, sim.CrashLoseAll, sim.CrashKeepAll, sim.CrashLoseAll)
-			checkAckedReadable(c, pp, cm, modelAt(model, lt.final.Step), acked, lt.final.Allocs, "acked-not-committed-at-quiescence", "power loss at quiescence", discards)
+		if quiescent == nil {
+			quiescent = lt.final
+		}
+		// only uploads acknowledged before that quiescence are judged (the
+		// rotation probe that follows uploads more)
+		var judged []*upload
+		for _, u := range acked {
+			if u.Return <= quiescent.Step {
+				judged = append(judged, u)
+			}
+		}
+		if len(judged) > 0 {
+			cm := crashMedia(c, cfg, quiescent, sim.CrashLoseAll, sim.CrashKeepAll, sim.CrashLoseAll)
+			checkAckedReadable(c, pp, cm, modelAt(model, quiescent.Step), judged, quiescent.Allocs, "acked-not-committed-at-quiescence", "power loss at the first quiescence", discards)
 		}
 		c.Nontrivial = lt.w.putsOK > 0 && (retried > 0 || len(releases) > 0 || c.Switches > 0)
 	}
